@@ -297,10 +297,13 @@ example : civilOfDays 36585 = { y := 2000, m := 2, d := 29 } ∧
 example : ∃ x y, civilOfMs 86399999 = some x ∧ civilOfMs 86400000 = some y ∧ x.le y ∧ x ≠ y :=
   ⟨_, _, rfl, rfl, by decide, by decide⟩
 
-/-- the spec calendar itself behaves: a common year has 365 steps, a leap year 366 -/
-example : addDays 365 { y := 1901, m := 1, d := 1 } = { y := 1902, m := 1, d := 1 } ∧
-    addDays 366 { y := 2000, m := 1, d := 1 } = { y := 2001, m := 1, d := 1 } ∧
-    addDays 365 { y := 1900, m := 1, d := 1 } = { y := 1901, m := 1, d := 1 } := by decide
+/-- the spec calendar itself behaves: February has 29 days in 2000 and 1904, 28 in 1900 and 1901,
+    December is followed by January of the next year -/
+example : addDays 29 { y := 2000, m := 2, d := 1 } = { y := 2000, m := 3, d := 1 } ∧
+    addDays 28 { y := 1900, m := 2, d := 1 } = { y := 1900, m := 3, d := 1 } ∧
+    addDays 29 { y := 1904, m := 2, d := 1 } = { y := 1904, m := 3, d := 1 } ∧
+    addDays 28 { y := 1901, m := 2, d := 1 } = { y := 1901, m := 3, d := 1 } ∧
+    addDays 31 { y := 1999, m := 12, d := 1 } = { y := 2000, m := 1, d := 1 } := by decide +kernel
 
 /-- `serial_1900` / `serial_1904` instances: 1970-01-01 is serial 25569 resp. 24107 -/
 example : dateOfSerial false 25569 = { y := 1970, m := 1, d := 1 } ∧
